@@ -94,6 +94,12 @@ func checkC12(c *Ctx, r *Report) {
 					v = ex.Tuple
 					continue
 				}
+				// the converted value comes back in a struct a helper fills (`fields, err := t.convertToolFields(&req)` …
+				// `fields.tools`): it is what the helper stored into that field
+				if alts := helperStructField(c, v); len(alts) == 1 {
+					v = alts[0]
+					continue
+				}
 				break
 			}
 			call, isCall := v.(*ssa.Call)
